@@ -59,6 +59,49 @@ now fails at the encode check, with the old content intact. -/
 theorem encode_error_fails_before_open :
     run d17Env noFaults pre loopBody post d17Before = .failed d17Before := by decide
 
+/-! ### refusals: which runs must fail, and that they fail before anything is written -/
+
+/-- THE REVIEWED REFUSALS of `generate()` (source order): function, exception, message, guarding conditions (normalised source of
+the enclosing `if` tests; `not (…)` = `else` branch; `except …` = handler), after `parser.parse()`?, before the first write? -/
+def reviewedRefusals : List Refusal :=
+  [⟨"get_first_file", "Error", "File not found", ["input_file_type == InputFileType.Auto"], false, true⟩,
+   ⟨"generate", "Error", "Invalid file format", ["input_file_type == InputFileType.Auto", "except Exception"], false, true⟩,
+   ⟨"generate", "Error", "f'Input must be a file for {input_file_type}'",
+     ["not (input_file_type == InputFileType.OpenAPI)", "not (input_file_type == InputFileType.GraphQL)", "input_file_type in RAW_DATA_TYPES",
+      "isinstance(input_, Path) and input_.is_dir()"], false, true⟩,
+   ⟨"generate", "Error", "Invalid file format",
+     ["not (input_file_type == InputFileType.OpenAPI)", "not (input_file_type == InputFileType.GraphQL)", "input_file_type in RAW_DATA_TYPES",
+      "except Exception"], false, true⟩,
+   ⟨"generate", "Error", "union_mode is only supported for pydantic_v2.BaseModel",
+     ["union_mode is not None", "not (output_model_type == DataModelType.PydanticV2BaseModel)"], false, true⟩,
+   ⟨"generate", "Error", "Models not found in the input data", ["not results"], true, true⟩,
+   ⟨"generate", "Error", "Modular references require an output directory", ["not (isinstance(results, str))", "output is None"], true, true⟩,
+   ⟨"generate", "Error", "Modular references require an output directory, not a file", ["not (isinstance(results, str))", "output.suffix"], true, true⟩]
+
+/-- Every reviewed refusal is in the table extracted from the `ast` of `generate()` (and of the helpers it calls) with EXACTLY the
+reviewed guarding conditions and the reviewed position relative to `parser.parse()`, and every `raise` of the table — reviewed or
+new — stands before the first file-system effect. A removed, moved, re-guarded or weakened refusal breaks this. -/
+theorem refusals_as_reviewed :
+    reviewedPresent reviewedRefusals refusals = true ∧ refusals.all (·.beforeFirstWrite) = true := by decide
+
+/-- For EVERY kind of parse result (nothing / one module / a dict of modules) and EVERY output argument (stdout, a path with or
+without a suffix) the extracted after-parse refusals — evaluated in source order on their extracted conditions — decide what the
+contract says: no models ⇒ refused; a modular result into stdout or into a file-like path ⇒ refused "Modular references require
+an output directory"; everything else proceeds to the write loop. No condition is outside the reviewed atoms. -/
+theorem refusals_meet_contract (r : ResultKind) (o : OutputArg) :
+    tableDecision r o refusals = contractDecision r o := by
+  cases r <;> rcases o with ⟨a, b⟩ <;> cases a <;> cases b <;> decide
+
+/-- non-vacuity: the modular result into `models.py` is refused by the table, a single module into it proceeds -/
+example : tableDecision .modular ⟨false, true⟩ refusals = .refused "Modular references require an output directory, not a file" ∧
+    tableDecision .single ⟨false, true⟩ refusals = .proceeds ∧ tableDecision .modular ⟨false, false⟩ refusals = .proceeds := by decide
+
+/-- … and a refused run is a FAILED run of the step model whose file system is the one before (with `failed_run_fs_unchanged`:
+the refusals are `raise` steps of `pre`): there are at least as many `raise` steps in `pre` as after-parse and in-`generate` refusals -/
+theorem refusals_are_steps_of_pre :
+    (pre.filter (fun s => s.kind == .raise)).length ≥ (refusals.filter (fun r => r.fn == "generate")).length ∧
+    (refusals.filter (·.afterParse)).length ≥ 3 := by decide
+
 /-! ### working directory -/
 
 /-- the context manager restores the working directory whichever of its steps raises —
